@@ -23,9 +23,22 @@
        C02_new_doc_compl_wf, C02_new_doc_fold_pre, C02_new_doc_doc_wf; proofs in Proofs/Total*.v from
        the position discipline of the parser, T5 and R2), and signatureHelp - which has no predicate
        of its own - is total as well.  Hence on a freshly analysed document NO request handler panics,
-       whatever the text and the position (C02_handlers_total): every slice, index and `expect` of
+       whatever the text and the position (C02_handlers_total, twelve handlers): every slice, index and `expect` of
        goto.rs, references.rs, hover.rs, signature_help.rs, completion.rs, fold.rs and
-       semantic_tokens.rs is unreachable there.
+       semantic_tokens.rs is unreachable there;
+     - the thirteenth handler, textDocument/formatting, lexes and parses the text itself and then walks the
+       tree of ANY document - syntax errors included: error nodes are printed from their raw token slices -
+       slicing the token vector with node ranges (`info.slice(tokens)`) and Reference offsets
+       (`&tokens[offset..]`) and `expect`ing a literal token inside the slice of every int literal; each of
+       these is a panic site of the model (Format.FPanic).  None is reachable: for every text and every
+       option setting `format` answers (C02_format_total), because every tree the parser returns on a
+       token list ending with its only Eof satisfies the printability predicate TotalFormatWf.ProgF
+       (start <= end and end in bounds for every range the formatter reads, every Reference offset in
+       bounds, a literal token in every int literal's slice; Proofs/TotalFormatWf.v, same parser
+       invariant as R2) and the printers return on every such tree (Proofs/TotalFormat.v,
+       C02_format_printers).  Probing the model with half-typed programs (empty text, `proc`, `proc main(`,
+       `type t =`, `proc p() { a[ := 1; }`, `proc p(a: array [) {}`, unterminated char literal, stray
+       tokens between declarations, comments inside every construct, deep nesting) found no failing input.
    The incremental parser CAN panic after edits (known finding C01-incparse, class: predicted by the
    model), so after an edit the handlers are covered by the check's request fuzz only.
    Process liveness, stack depth and allocation are observed by the check, not proved. *)
@@ -145,3 +158,42 @@ Example C02_example :
   | _ => False
   end.
 Proof. vm_compute. reflexivity. Qed.
+
+(* ---- the thirteenth handler: textDocument/formatting (Model/Format.v is not imported here: its `do`
+   notation clashes with the one of Model/Errors.v) ---- *)
+From Spl Require Model.Format Proofs.FormatProofs Proofs.TotalFormatWf Proofs.TotalFormat.
+
+(* `format` answers for every text and every option setting: neither Panic nor OutOfFuel *)
+Theorem C02_format_total : forall doc ins ts, exists r, Format.format_request doc ins ts = Done r.
+Proof. exact TotalFormat.format_total. Qed.
+Print Assumptions C02_format_total.
+
+Theorem C02_formatted_text_total : forall doc ins ts, exists out, FormatProofs.formatted_text doc ins ts = Done out.
+Proof. exact TotalFormat.formatted_text_total. Qed.
+Print Assumptions C02_formatted_text_total.
+
+(* the parser side: every tree `parse` returns on a token list ending with its only Eof is printable ... *)
+Theorem C02_parse_printable : forall toks prog,
+  EofLast toks -> parse toks = Done prog -> TotalFormatWf.ProgF toks (length toks - 1) prog.
+Proof. exact TotalFormatWf.parse_fwf. Qed.
+Print Assumptions C02_parse_printable.
+
+(* ... and the printers return on every such tree, for every option setting *)
+Theorem C02_format_printers : forall toks p f,
+  EofLast toks -> parse toks = Done p -> exists out, Format.fmt_program f p toks = Format.FOk out.
+Proof. exact TotalFormat.fmt_parse_total. Qed.
+Print Assumptions C02_format_printers.
+
+(* the panic sites are real: the tree of "proc main(){x:=1;}" printed on a truncated token vector panics *)
+Example C02_format_sites_real :
+  match lex [112; 114; 111; 99; 32; 109; 97; 105; 110; 40; 41; 123; 120; 58; 61; 49; 59; 125]%N with
+  | Some toks =>
+      match parse toks with
+      | Done p =>
+          (exists out, Format.fmt_program (Format.options_of true 4) p toks = Format.FOk out) /\
+          Format.fmt_program (Format.options_of true 4) p (firstn 3 toks) = Format.FPanic
+      | _ => False
+      end
+  | None => False
+  end.
+Proof. vm_compute. split; [eexists; reflexivity | reflexivity]. Qed.
